@@ -26,6 +26,34 @@ class Dom(VecDomain):
         st.assume(z3.ForAll([xs, k, j, v], z3.Implies(j > k, SUMSQ(z3.Store(xs, j, v), k) == SUMSQ(xs, k))))
         st.assume(z3.ForAll([xs], SUMSQ(xs, 0) == 0))
 
+    def name_shape(self, name):
+        return {'obj': 'real'}.get(name)
+
+    def on_assign_name(self, name, v, st):
+        if is_unk(v) and self.name_shape(name) == 'real':
+            return freal(name)
+        return VecDomain.on_assign_name(self, name, v, st)
+
+    def install_builtins(self):
+        VecDomain.install_builtins(self)
+        self.builtins['ceil'] = lambda eng, n, a, k, st: self.b_round(a, st, True)
+        self.builtins['math.ceil'] = self.builtins['ceil']
+        self.builtins['int'] = lambda eng, n, a, k, st: self.b_round(a, st, False) if a and isz(a[0]) and isreal(a[0]) else VecDomain.b_int(self, eng, n, a, k, st)
+
+    def b_round(self, a, st, up):
+        """A-lib: ceil(x) is the integer r with x <= r < x + 1; int(x) truncates towards zero"""
+        x = a[0] if a else UNK
+        if not (isz(x) and isnum(x)):
+            return fint('round')
+        x = to_real(x)
+        r = fint('ceil' if up else 'trunc')
+        rr = z3.ToReal(r)
+        if up:
+            st.assume(z3.And(rr >= x, rr < x + 1))
+        else:
+            st.assume(z3.If(x >= 0, z3.And(rr <= x, x < rr + 1), z3.And(rr >= x, x > rr - 1)))
+        return r
+
     def fresh(self, shape, name, st=None):
         if shape == 'xs':
             return z3.Array(fresh_name(name), I, V)
@@ -94,11 +122,17 @@ def build(repo):
                ensures=['||d|| <= Delta (real arithmetic):: norm(result[0]) <= delta'])
     D.contract('ctrsbox_sfista', tags=['C13'],
                params={'xopt': 'V', 'g': 'V', 'H': 'V', 'projections': 'plist', 'delta': 'real', 'd_max_iters': 'int', 'd_tol': 'real', 'h': 'cb:h',
-                       'prox_uh': 'cb:prox_uh', 'L_h': 'real', 'func_tol': 'real', 'max_iters': 'int', 'scaling_changes': 'opt:V'},
-               requires=STEP_REQ + FINREQ + [('(C13, C06) S-FISTA evaluates the regulariser in the caller\'s variables: it is handed the controller\'s scaling_changes:: scaling_changes == G.sc', 'C13', 'C06'),
+                       'prox_uh': 'cb:prox_uh', 'L_h': 'real', 'func_tol': 'real', 'max_iters': 'int', 'scaling_changes': 'opt:V', 'sfista_iters_scale': 'real'},
+               requires=STEP_REQ + FINREQ + ['A-pre (input checks of solve: lh > 0; documented parameter ranges: func_tol.* > 0 and sfista.max_iters_scaling > 0, times delta > 0):: '
+                                            'L_h > 0 and func_tol > 0 and sfista_iters_scale > 0',
+                                            ('(C06) the regularised subproblem is solved OVER the feasible set: S-FISTA is handed at least one projection (the bound box when there are no general '
+                                             'constraints), so every iterate of its inner loop is feasible - a step computed in the ball alone and clipped afterwards is not a minimiser:: len(projections) >= 1', 'C06'),
+                                            ('(C13, C06) S-FISTA evaluates the regulariser in the caller\'s variables: it is handed the controller\'s scaling_changes:: scaling_changes == G.sc', 'C13', 'C06'),
                                             'A-params sub-range (the S-FISTA loop runs at least once; func_tol.max_iters = 0 is accepted by the parameter check and leaves gnew unbound):: max_iters >= 1'],
                modifies=[], result=None,
-               loops={'for:k#0': ['norm(d) <= delta']},
+               loops={'for:k#0': ['norm(d) <= delta',
+                                  ('(C06, C08) the S-FISTA loop runs at least once (the iteration count is a ceiling of a positive quantity, capped by func_tol.max_iters >= 1), so the step, '
+                                   'its gradient and the curvature it returns are always bound:: MAX_LOOP_ITERS >= 1', 'C06', 'C08', 'C13')]},
                ensures=['||d|| <= Delta (real arithmetic):: norm(result[0]) <= delta'])
     D.contract('ctrsbox_linear', tags=['C13'], params={'xbase': 'V', 'g': 'V', 'projections': 'plist', 'Delta': 'real', 'd_max_iters': 'int', 'd_tol': 'real'},
                requires=['Delta > 0', 'd_max_iters >= 1', 'd_tol >= 0'], modifies=[], result='V',
@@ -134,6 +168,7 @@ def build(repo):
                         'a zero step has model value h(x) (0 without a regulariser):: implies(s == zerov, result == ite(isnone(h), 0.0, HU(RSV(xopt))))'])
     D.field_shapes[('Controller', 'h')] = 'opt:cb:h'
     D.field_shapes[('Controller', 'model')] = 'ref:Model'
+    D.field_shapes[('Model', 'projections')] = 'plist'
     D.field_shapes[('Controller', 'delta')] = 'real'
     D.contract('Model.build_full_model', tags=['C13'], modifies=[], result=('V', 'V'), ensures=[], assumed=True, notes='(g, H) are opaque here; their assembly is proved in domain M')
     D.contract('Model.xopt', tags=['C13'], modifies=[], result='V', params={'abs_coordinates': 'bool'},
@@ -149,6 +184,14 @@ def build(repo):
                         'isnone(self.h) or model_value(result[1], result[2], zerov, XOPT_ABS(), self.h, (), G.sc) == HU(RSV(XOPT_ABS()))',
                         ('the regularised step handed to the main loop never has a negative predicted reduction (h(x) - m(d) >= 0; the zero step is substituted otherwise):: '
                          'isnone(self.h) or HU(RSV(XOPT_ABS())) - MVF(result[1], result[2], result[0], XOPT_ABS()) >= 0', 'C13', 'C06')])
+    D.ghost_shapes.update({'obj0': 'real'})
+    D.contract('Controller.calculate_ratio', tags=['C04', 'C06'], params={'x': 'V', 'd': 'V', 'gopt': 'V', 'H': 'V', 'current_iter': 'int'},
+               requires=[SCDEF], modifies=['self.diffs', 'self.last_successful_iter', 'G.obj0'], result=None,
+               ghost_before={'model_value#1': [('G.obj0', 'obj')]},
+               asserts={'return': [('(C04 N-ratio, C06) the value the acceptance ratio compares with the incumbent is the objective OF THE TRIAL POINT: sum of squares of its mean residual plus '
+                                    'h at x + d in the caller\'s variables (so ratio > 0 means the evaluated point improves on the incumbent):: '
+                                    'isnone(self.h) or obj == G.obj0 + HU(RSV(vadd(x, d)))', 'C04', 'C06')]},
+               ensures=[])
     D.contract('Controller.evaluate_criticality_measure', tags=['C08', 'C13'],
                requires=[SCDEF, 'parameters inside the range table (established by solve):: params("dykstra.max_iters") >= 1 and params("dykstra.d_tol") >= 0',
                          'A-params sub-range (func_tol.max_iters = 0 is accepted by the parameter check):: params("func_tol.max_iters") >= 1'],
@@ -164,7 +207,7 @@ def build(repo):
                          'bound-constrained geometry step attain its maximum along the last free direction):: '
                          'implies(DOT(g, g) >= 1e-28, DOT(g, g) * result * result + 2 * DOT(g, x0) * result + DOT(x0, x0) == Delta * Delta)'),
                         'a numerically zero direction gives no step:: implies(DOT(g, g) < 1e-28, result == 0)'])
-    D.verify_list = ['ball_step', 'model_value', 'Controller.trust_region_step', 'Controller.evaluate_criticality_measure', 'dykstra', 'pball', 'ctrsbox_pgd', 'ctrsbox_sfista', 'ctrsbox_linear', 'ctrsbox_geometry', 'trsbox_geometry']
+    D.verify_list = ['Controller.calculate_ratio', 'ball_step', 'model_value', 'Controller.trust_region_step', 'Controller.evaluate_criticality_measure', 'dykstra', 'pball', 'ctrsbox_pgd', 'ctrsbox_sfista', 'ctrsbox_linear', 'ctrsbox_geometry', 'trsbox_geometry']
     return D
 
 
